@@ -255,6 +255,12 @@ func operands() []operand {
 			out = append(out, operand{t, "local", "var.o", fmt.Sprintf("  declare local var.o %s;\n  set var.o = %s;\n", t, init)})
 		}
 	}
+	// a sign in front of a numeric operand: the value of a negated variable is not a literal
+	for _, t := range []string{"INTEGER", "FLOAT", "RTIME"} {
+		out = append(out, operand{t, "negated-local", "-var.o", fmt.Sprintf("  declare local var.o %s;\n  set var.o = %s;\n", t, lit[t])})
+		out = append(out, operand{t, "negated-literal", "-" + lit[t], ""})
+	}
+	out = append(out, operand{"INTEGER", "negated-predefined", "-req.restarts", ""}, operand{"RTIME", "negated-predefined", "-req.grace", ""})
 	out = append(out,
 		operand{"STRING", "predefined", "req.url", ""}, operand{"INTEGER", "predefined", "req.restarts", ""}, operand{"BOOL", "predefined", "req.is_ssl", ""},
 		operand{"RTIME", "predefined", "req.grace", ""}, operand{"TIME", "predefined", "now", ""}, operand{"IP", "predefined", "client.ip", ""},
@@ -325,9 +331,9 @@ func genOperators(emit func(Case)) {
 			for _, r := range operands() {
 				lp, rp := l.prelude, r.prelude
 				le, re := l.expr, r.expr
-				if l.form == "local" {
+				if l.form == "local" || l.form == "negated-local" {
 					lp = strings.ReplaceAll(lp, "var.o", "var.l")
-					le = "var.l"
+					le = strings.ReplaceAll(le, "var.o", "var.l")
 				}
 				cell := fmt.Sprintf("compare %s %s %s %s %s", l.typ, l.form, op, r.typ, r.form)
 				al := golden[cell]
